@@ -38,7 +38,7 @@ def edit_case(r, k, G, acc, start, w, edits):
         res = rep(r, k, G, acc, start, w, edits, s, indel, chk)
         if res is None:
             continue
-        cands, stats = res
+        cands, stats = list(res[0]), res[1]
         det = int(stats[0])
         vtag = 'indel-%s|%s' % ('on' if indel else 'off', 'check' if chk else 'nocheck')
         if det == d and w not in cands:
